@@ -266,6 +266,18 @@ class Maker:
     def note(self, s):
         self.notes.append(s)
 
+    def define(self, name, value):
+        """a named abbreviation: a fresh real U with the definition U == value recorded like a lemma called 'def <name>', so that
+        obligations with a `use=` list see the definition only when they ask for it (a definitional extension: conservative)"""
+        if not self.sym or not isinstance(value, SymReal):
+            return value
+        c = symx.ctx()
+        U = SymReal(z3.Real(c.name('def_' + name.replace(' ', '_'))))
+        eq = U.t == value.t
+        c.assume(eq)
+        self.__dict__.setdefault('lemma_terms', []).append(('def ' + name, eq))
+        return U
+
     def lemma(self, name, cond, use=None):
         """an obligation that, once posted, is also available as a hypothesis to the later
         obligations of this path (proof guidance: it is itself proved under the hypotheses
